@@ -14,7 +14,7 @@ Ints == [ add_byte  |-> {<<0, 0>>, <<0, 255>>, <<0, 256>>, <<32768, 0>>},
           add_short |-> {<<0, 253>>, <<0, 64008>>, <<0, 64009>>},
           add_three |-> {<<0, 64009>>, <<247, 6884>>, <<247, 6885>>},
           add_int   |-> {<<247, 6885>>, LSub(INTMAX, <<0, 1>>), INTMAX, LAdd(INTMAX, <<0, 1>>), <<65536, 0>>} ]
-S1 == {<<>>, <<97>>, <<255>>, <<126, 97>>, <<97, 255, 256>>, <<128, 255>>}
+S1 == {<<>>, <<97>>, <<255>>, <<126, 97>>, <<97, 255, 256>>, <<128, 255>>, <<127, 33, 80>>}
 S2 == {<<>>, <<255>>, <<97, 255, 256>>, <<126, 98>>}
 CALLS ==
   UNION {{[op |-> o, n |-> n] : n \in Ints[o]} : o \in DOMAIN Ints}
